@@ -8,7 +8,7 @@ for S in ${@:-$(ls seeded)}; do
   P=$(python3 -c "import json;print(json.load(open('$D/meta.json'))['property'])")
   PREV=$(python3 -c "import json;print(' '.join(json.load(open('$D/meta.json'))['detected_by']))")
   CHECKS=$(echo "$P $PREV ${EXTRA:-}" | tr ' ' '\n' | sort -u | tr '\n' ' ')
-  git -C /repo apply /verif/$D/patch.diff || { echo "$S: patch does not apply"; continue; }
+  git -C /repo apply /verif/$D/patch.diff 2>/dev/null || git -C /repo apply --3way /verif/$D/patch.diff >/dev/null 2>&1 || { echo "$S: patch does not apply"; git -C /repo reset -q --hard HEAD; continue; }
   line="$S:"
   for c in $CHECKS; do
     out=$(./run.sh $c quick 2>&1); rc=$?
@@ -23,6 +23,6 @@ m['detected_by']=sorted(k for k,v in m['checks_run_quick'].items() if v.startswi
 json.dump(m,open(d+'/meta.json','w'),indent=1)
 PY
   done
-  git -C /repo checkout -- .
+  git -C /repo reset -q --hard HEAD
   echo "$line"
 done
